@@ -356,6 +356,16 @@ impl DeepCase {
             c.configs = vec![k];
             return c;
         }
+        if prop == "C03" {
+            // complete enumeration: with all chain variables equal the model has few solutions
+            // (two thresholds x the further assignments), each found after backtracking through
+            // implication chains n propagations deep
+            if rng.chance(0.7) {
+                c.link = 3;
+            }
+            c.n = *rng.pick(&[520usize, 600, 700, 900]);
+            c.op = Op::Iterate { max: if c.link == 3 { 100_000 } else { rng.range(4, 40) as usize }, interrupt: None };
+        }
         // the configurations: a random one, the same with minimisation flipped, two more random
         // ones (learning everywhere: the no-learning resolver is a different search on models of
         // this size and does not support the assumption-based optimisation, KF-001)
